@@ -63,3 +63,82 @@ Theorem C08_lost_refuted_without_report_before_removal :
   g_denied (gh (d15_state true)) = 2 /\ g_reported (gh (d15_state true)) = 2 /\ g_lost (gh (d15_state true)) = 0.
 Proof. vm_compute. repeat split; reflexivity. Qed.
 Print Assumptions C08_lost_refuted_without_report_before_removal.
+
+(* ---------------------------------------------------------------------------------------------
+   The count clause below the granularity of M-BE: the failure counter protocol of one ThreadContext
+   at micro-step granularity (Backend/FailCounter.v). M-BE increments failc in one frontend step and
+   reads-and-resets it in one backend step; these theorems are what justifies that: with the
+   increment one atomic read-modify-write and the reset one atomic exchange (what tools/srcfacts.py
+   reads from ThreadContextManager.h on every run) every interleaving of the micro-steps is exact and
+   is a run of the atomic machine. *)
+From Quill Require Import Backend.FailCounter Backend.FailCounterProofs.
+
+(* T-src: increment_failure_counter is one atomic read-modify-write (+1) of the std::atomic counter *)
+Theorem C08_failc_tie_inc_atomic : QuillGen.SrcFacts.tcm_failc_inc_atomic = true.
+Proof. exact src_tcm_failc_inc_atomic. Qed.
+Print Assumptions C08_failc_tie_inc_atomic.
+
+(* T-src: get_and_reset_failure_counter is one atomic exchange(0), after a load == 0 early return or not *)
+Theorem C08_failc_tie_reset_atomic : QuillGen.SrcFacts.tcm_failc_reset_atomic = true.
+Proof. exact src_tcm_failc_reset_atomic. Qed.
+Print Assumptions C08_failc_tie_reset_atomic.
+
+(* every schedule of micro-steps (every list: steps out of program order are not enabled), guard or no
+   guard: reported + pending = discarded in every reachable state, the values returned by get_and_reset
+   (what _check_failure_counter passes to the notifier) add up to reported, and one more whole
+   get_and_reset call drains the counter: the returned values then add up exactly to the discarded statements *)
+Theorem C08_failc_exact : forall g ops,
+  let fl := {| inc_atomic := true; reset_guarded := g; reset_atomic := true |} in
+  let s := fc_run fl fc0 ops in
+  rep s + ctr s = disc s /\ nsum (rets s) = rep s /\
+  (let d := fc_run fl s (get_and_reset_call fl) in ctr d = 0 /\ disc d = disc s /\ nsum (rets d) = disc s).
+Proof. exact fc_exact. Qed.
+Print Assumptions C08_failc_exact.
+
+(* the same for the flags read from the source (the statement is about the code as it is now) *)
+Theorem C08_failc_exact_src : forall ops,
+  let s := fc_run fc_src_flags fc0 ops in
+  rep s + ctr s = disc s /\ nsum (rets s) = rep s /\
+  (let d := fc_run fc_src_flags s (get_and_reset_call fc_src_flags) in
+   ctr d = 0 /\ disc d = disc s /\ nsum (rets d) = disc s).
+Proof. exact fc_exact_src. Qed.
+Print Assumptions C08_failc_exact_src.
+
+(* the micro-step protocol of the source refines the atomic machine (one step per call): this is the
+   granularity at which M-BE (BEDefs.fstep / report_failures, theorem C08_count) treats the counter *)
+Theorem C08_failc_refines_atomic : forall ops, exists aops, a_run afc0 aops = abs (fc_run fc_src_flags fc0 ops).
+Proof. exact fc_refines_atomic_src. Qed.
+Print Assumptions C08_failc_refines_atomic.
+
+(* any number of thread contexts, one schedule over all of them: exact per context and in total *)
+Theorem C08_failc_any_contexts : forall g ops l,
+  let M := mfc_run {| inc_atomic := true; reset_guarded := g; reset_atomic := true |} (fun _ => fc0) ops in
+  (forall t, rep (M t) + ctr (M t) = disc (M t) /\ nsum (rets (M t)) = rep (M t)) /\
+  tsum rep M l + tsum ctr M l = tsum disc M l.
+Proof. exact mfc_exact. Qed.
+Print Assumptions C08_failc_any_contexts.
+
+(* increment written as load ; store(+1): the exchange falls between the two, the reset is overwritten,
+   the same discarded statement is reported twice (reported > discarded) *)
+Theorem C08_failc_split_increment_refuted :
+  let s := fc_run fl_split_inc fc0 [FLoad; FStore; FLoad; BGuard; BExchange; FStore] in
+  let d := fc_run fl_split_inc s (get_and_reset_call fl_split_inc) in
+  disc s = 2 /\ rep s = 1 /\ ctr s = 2 /\ disc s < rep s + ctr s /\
+  ctr d = 0 /\ disc d = 2 /\ rets d = [1; 2] /\ disc d < nsum (rets d).
+Proof. exact fc_split_inc_refuted. Qed.
+Print Assumptions C08_failc_split_increment_refuted.
+
+(* reset written as load ; store(0): an increment between the two is overwritten and never reported *)
+Theorem C08_failc_split_reset_refuted :
+  let s := fc_run fl_split_reset fc0 [FInc; BGuard; BLoad; FInc; BStore] in
+  let d := fc_run fl_split_reset s (get_and_reset_call fl_split_reset) in
+  disc s = 2 /\ rep s = 1 /\ ctr s = 0 /\ rep s + ctr s < disc s /\
+  ctr d = 0 /\ disc d = 2 /\ rets d = [1; 0] /\ nsum (rets d) < disc d.
+Proof. exact fc_split_reset_refuted. Qed.
+Print Assumptions C08_failc_split_reset_refuted.
+
+(* non-vacuity: drops while the backend is between its guard and its exchange, all reported once *)
+Example C08_failc_nonvacuous :
+  let s := fc_run fl_src fc0 [FInc; BGuard; FInc; BExchange; FInc; BGuard; BGuard; BExchange; BGuard] in
+  disc s = 3 /\ rets s = [2; 1; 0] /\ ctr s = 0 /\ rep s = 3.
+Proof. exact fc_nonvacuous. Qed.
